@@ -154,7 +154,7 @@ def concretise(job, unit, res, workdir, log):
         if rc3 != 0:
             out['note'] = 'native replay does not link: ' + o3[-1200:]
             return out
-        rc4, o4 = RP.run([exe], timeout=60, cwd=jd, env=dict(os.environ, ASAN_OPTIONS='detect_leaks=0'))
+        rc4, o4 = RP.run([exe], timeout=60, cwd=jd, env=dict(os.environ, ASAN_OPTIONS='detect_leaks=0:alloc_dealloc_mismatch=0'))
         out['native_output'] = o4 if len(o4) < 3000 else o4[:2200] + '\n...\n' + o4[-600:]
         out['native_rc'] = rc4
         # ghost-return values are not observable on the real code; postconditions that mention them are
